@@ -219,3 +219,37 @@ def one_step_stores_one_sample_and_one_log_probability(h, cls, d, retries):
     appended and the reported chain length equals both counts.  Same execution as C03's step-invariant unit"""
     from harness import c03
     c03.constructor_and_step_preserve_invariant(h, cls, d, retries)
+
+
+@unit("C15", quick=[dict(cls="gibbs", d=1, limits="boundaries"), dict(cls="gibbs", d=2, limits="nonneg"), dict(cls="metropolis", d=2, limits="none"),
+                    dict(cls="pca", d=2, limits="none")], max_paths=4000, cost=5, floor_lemmas=True)
+def equal_chains_with_equal_generator_states_take_equal_steps(h, cls, d, limits):
+    """what makes 'a pool of chains advanced together ends in the same state as the same chains, with the same
+    random-generator states, advanced one after another' true: a step is a function of the chain's own state and of the
+    numbers drawn from the generators the chain owns.  Two chains are built from the same (symbolic) inputs, their own
+    generators are given the same (symbolic) draws, and each takes a step; the stored samples, log-probabilities and
+    lengths must coincide.  A step that consults any other source of randomness differs between the two"""
+    ev1, ev2 = mc.Events(), mc.Events()
+
+    def build(ev):
+        h._names = {}     # identical input names => the two chains hold identical symbolic data and draws
+        if cls == "pca":
+            pca, chain, post, T, pts = mc.make_pca(h, d, ev, max_draws=2 * d)
+        else:
+            # (boundaries instance: unit proposal width and the box (0, 1) -- the subject is where the random numbers
+            # come from, and concrete scales keep the fold arithmetic linear for the solver whatever form it is written in)
+            gb, chain, post, T, pts = mc.make_metropolis_like(h, cls, d, ev, max_draws=2, widths=np.ones(d) if limits == "boundaries" else None)
+            if limits == "boundaries":
+                chain.set_boundaries(0, (0.0, 1.0))
+            elif limits == "nonneg":
+                chain.set_non_negative(d - 1)
+        return chain
+    A, B = build(ev1), build(ev2)
+    h.allow(ValueError)
+    names = dict(h._names)
+    A.take_step()
+    h._names = dict(names)     # the second chain's generators hand out the same (symbolic) numbers as the first one's did
+    B.take_step()
+    h.same("same chain length", A.chain_length, B.chain_length)
+    h.eq("same stored samples", np.asarray(A.get_sample(burn=0)), np.asarray(B.get_sample(burn=0)))
+    h.eq("same stored log-probabilities", np.asarray(A.get_probabilities(burn=0)), np.asarray(B.get_probabilities(burn=0)))
